@@ -211,6 +211,41 @@ fn alphabet() -> Vec<Stmt> {
             inner: &[],
             model: |_m| Exp::Ok(Some(MV::List(vec![2]))),
         },
+        // do-blocks nested inside a called function: inner locals must not leak into the
+        // function's own scope, alter its parameters, or be visible to sibling blocks
+        Stmt {
+            src: "((x) => do {\n  t = do { a = x; return 0 }\n  return [a, t]\n})(7)",
+            targets: &[],
+            inner: &["t", "x"],
+            model: |m| match int(m, "a") {
+                Some(a) => Exp::Ok(Some(MV::List(vec![a, 0]))),
+                None => Exp::Fail,
+            },
+        },
+        Stmt {
+            src: "((x) => do {\n  y = do { x = x * 100; return x }\n  return [x, y]\n})(2)",
+            targets: &[],
+            inner: &["x", "y"],
+            model: |_m| Exp::Ok(Some(MV::List(vec![2, 200]))),
+        },
+        Stmt {
+            src: "((x) => do {\n  p = do { tmp = x + 1; return tmp }\n  return tmp\n})(1)",
+            targets: &[],
+            inner: &["tmp", "p", "x"],
+            model: |_m| Exp::Fail,
+        },
+        Stmt {
+            src: "((x) => do {\n  p = do { q = 1; return q }\n  r = do { return q }\n  return r\n})(0)",
+            targets: &[],
+            inner: &["q", "p", "r"],
+            model: |_m| Exp::Fail,
+        },
+        Stmt {
+            src: "[5] via ((b) => do {\n  u = do { b = b + 1; return b }\n  return [b, u]\n})",
+            targets: &[],
+            inner: &["u"],
+            model: |_m| Exp::Ok(None),
+        },
         Stmt { src: "a = nope", targets: &["a"], inner: &[], model: |_m| Exp::Fail },
         Stmt {
             src: "b = (a = 1) + nope",
@@ -499,7 +534,7 @@ pub fn run(ctx: &Ctx, replay: Option<&J>) -> i32 {
     ctx.set("fixpoint_reached", json!(ctx.caps.lock().unwrap().is_empty()));
     ctx.set(
         "trusted_base",
-        json!(["reference model of the 32-statement alphabet in mc/src/c03.rs", "canonical state key (sorted bindings + outputs)"]),
+        json!(["reference model of the 37-statement alphabet in mc/src/c03.rs", "canonical state key (sorted bindings + outputs)"]),
     );
     ctx.assume("names and values outside the statement alphabet are not explored");
     // vacuity guards
